@@ -643,6 +643,17 @@ func checkC06(env *engine.Env, ci any) engine.Outcome {
 				viol("fault:special-source:undecodable:"+f, "a %s among the sources: Package returned nil, the output cannot be decoded: %v", c.Shape, derr)
 				return out
 			}
+			// ... and it does not pass over the special file in silence: what the entry names (or matches) is in the
+			// package in some form, or the call fails
+			named := false
+			for i := range pkg.Entries {
+				if pth := pkg.Entries[i].Path; pth == "/opt/special" || pth == "/etc/special.conf" || pth == "/opt/d/special" {
+					named = true
+				}
+			}
+			if !named {
+				viol("fault:special-source:silently-dropped:"+c.Ref, "a %s among the sources (%s, reached as %s): Package(%s) returned nil and the package does not mention it at all (members: %s)", c.Shape, sp, c.Ref, f, strings.Join(pkg.SortedPaths(), " "))
+			}
 			for i := range pkg.Entries {
 				en := &pkg.Entries[i]
 				okKind := en.Kind == "file" || en.Kind == "dir" || en.Kind == "symlink"
